@@ -8,6 +8,7 @@
 (*   <<"single", value>>       exactly that constant                       *)
 (*   <<"union", <<t...>>>>  <<"tpair", a, b>>  <<"tlist", a>>  <<"tmap", k, v>>*)
 (*   <<"tstruct", << <<field parts, type, optional?>> ... >>>>             *)
+(*   <<"ttagged", field, << <<tag, struct fields>> ... >>>>                 *)
 (* Name constants of this family carry their parts: <<"cn", <<"foo","a">>>>.*)
 (***************************************************************************)
 EXTENDS Values
@@ -32,6 +33,10 @@ Member(t, c) ==
          /\ c[1] = "struct"
          /\ \A i \in DOMAIN c[2] : \E j \in DOMAIN t[2] : <<t[2][j][1]>> = c[2][i][1][2] /\ Member(t[2][j][2], c[2][i][2])
          /\ \A j \in DOMAIN t[2] : t[2][j][3] \/ \E i \in DOMAIN c[2] : c[2][i][1][2] = <<t[2][j][1]>>
+    \* <<"ttagged", field, << <<tag, fields>> ... >>>>: a struct whose field `field` holds the name /tag of ONE variant and
+    \* whose other fields are exactly that variant's (fn:TaggedUnion = the union of its variants' structs, each with the tag)
+    [] t[1] = "ttagged" ->
+         \E i \in DOMAIN t[3] : Member(<<"tstruct", <<<<t[2], <<"single", <<"cn", <<t[3][i][1]>>>>>>, FALSE>>>> \o t[3][i][2]>>, c)
     [] OTHER -> FALSE
 Members(t, U) == {c \in U : Member(t, c)}
 Sub(s, t, U) == Members(s, U) \subseteq Members(t, U)
